@@ -210,6 +210,10 @@ def gen_texts(seed, tier):
         style = rng.choice(['plain', 'tight', 'comments', 'comments'])
         text = layout(rng, toks, style)
         cases.append(dict(id='t%d' % i, rules=rules, text=text, style=style, expect='ok'))
+    # known finding K9: a comment on the last line of a text that does not end in a newline
+    k9_rules = [dict(kind='rule', dirs=['export'], name='A', body=gen.choice(gen.seq(gen.lit('a'))))]
+    cases.append(dict(id='k9', rules=k9_rules, text="@export A = 'a'; # the end", style='comment-at-end-of-text', expect='ok'))
+    cases.append(dict(id='k9nl', rules=k9_rules, text="@export A = 'a'; # the end\n", style='comment-at-end-of-text', expect='ok'))
     # malformed stream
     valid = [c['text'] for c in cases[:80]]
     toks = ['@export', '(', ')', '[', ']', '{', '}', '|', ';', '=', '!', '&', '>', '$', ':', '*', "'a'", '"b', "i'x'", "'a'..", 'A', '1', '\\', "'", '#c', '\n', '@extern(', 'é', "'\\u{110000}'", "'\\q'"]
@@ -319,7 +323,7 @@ def run_C12(seed, tier, pid='C12'):
             m = model.get(c['id'], ('MISSING', ''))
             res['evaluations'] += 1
             res['distribution'][c['style'] + ' -> ' + i[0]] += 1
-            rp = dict(kind='front', text=c['text'], style=c['style'], impl=[i[0], i[1][:300]], model=[m[0], m[1][:300]], what='')
+            rp = dict(kind='front', case=c['id'], text=c['text'], style=c['style'], impl=[i[0], i[1][:300]], model=[m[0], m[1][:300]], what='')
             isx = None
             if i[0] == 'OK':
                 try:
